@@ -13529,9 +13529,25 @@ func (p *parser) isUnsupportedRegularExpression(loc logger.Loc, value string) (p
 	end := strings.LastIndexByte(value, '/')
 	pattern = value[1:end]
 	flags = value[end+1:]
-	isUnicode := strings.IndexByte(flags, 'u') >= 0
+	isUnicode := strings.IndexByte(flags, 'u') >= 0 || strings.IndexByte(flags, 'v') >= 0
 	parenDepth := 0
 	i := 0
+
+	// This is called with the text after a backslash, both inside and outside of
+	// a character class
+	isUnsupportedPropertyEscape := func(tail string) bool {
+		if isUnicode && (strings.HasPrefix(tail, "p{") || strings.HasPrefix(tail, "P{")) {
+			if p.options.unsupportedJSFeatures.Has(compat.RegexpUnicodePropertyEscapes) {
+				if end := strings.IndexByte(tail, '}'); end >= 0 {
+					what = "Unicode property escapes in regular expressions are not available"
+					r = logger.Range{Loc: logger.Loc{Start: loc.Start + int32(i)}, Len: int32(end) + 2}
+					isUnsupported = true
+					return true
+				}
+			}
+		}
+		return false
+	}
 
 	// Do a simple scan for unsupported features assuming the regular expression
 	// is valid. This doesn't do a full validation of the regular expression
@@ -13555,6 +13571,9 @@ pattern:
 					break class
 
 				case '\\':
+					if isUnsupportedPropertyEscape(pattern[i:]) {
+						break pattern
+					}
 					i++ // Skip the escaped character
 				}
 			}
@@ -13592,19 +13611,9 @@ pattern:
 			parenDepth--
 
 		case '\\':
-			tail := pattern[i:]
-
-			if isUnicode && (strings.HasPrefix(tail, "p{") || strings.HasPrefix(tail, "P{")) {
-				if p.options.unsupportedJSFeatures.Has(compat.RegexpUnicodePropertyEscapes) {
-					if end := strings.IndexByte(tail, '}'); end >= 0 {
-						what = "Unicode property escapes in regular expressions are not available"
-						r = logger.Range{Loc: logger.Loc{Start: loc.Start + int32(i)}, Len: int32(end) + 2}
-						isUnsupported = true
-						break pattern
-					}
-				}
+			if isUnsupportedPropertyEscape(pattern[i:]) {
+				break pattern
 			}
-
 			i++ // Skip the escaped character
 		}
 	}
